@@ -327,11 +327,13 @@ def paren_label(parent, slot: str, index: int, child) -> str:
     return 'lost-parens-under-' + kind_name(parent, slot)
 
 
-def _paren_child_label(e) -> T.Optional[str]:
-    """Label of a parenthesised compound operand of e, preferring one whose parentheses the reference grammar
-    needs (removing that pair alone changes or breaks the reading of e)."""
-    first = None
+def _paren_child_label(e, n=None) -> T.Optional[str]:
+    """Label of a parenthesised compound operand of e.  Preference: the pair whose removal alone turns e into the
+    re-printed tree n; else a pair the reference grammar needs (removing it alone changes or breaks the reading
+    of e); else the first pair."""
+    first = needed = None
     ch = children(e)
+    want = strip_parens(n) if n is not None else None
     for i, (slot, c) in enumerate(ch):
         if c[0] == 'paren' and is_compound(c):
             lab = paren_label(e, slot, i, c)
@@ -340,13 +342,17 @@ def _paren_child_label(e) -> T.Optional[str]:
             kids = [x for _, x in ch]
             kids[i] = c[1]
             try:
-                if strip_parens(parse_expr(unparse(with_children(e, kids)))) != strip_parens(e):
+                t = strip_parens(parse_expr(unparse(with_children(e, kids))))
+                if want is not None and t == want:
                     return lab
+                if t != strip_parens(e) and needed is None:
+                    needed = lab
             except SyntaxFail:
-                return lab
+                if needed is None:
+                    needed = lab
             except Unspecified:
                 pass
-    return first
+    return needed or first
 
 
 def string_features(e) -> T.List[str]:
@@ -393,11 +399,9 @@ def _culprit(o, n) -> T.Optional[str]:
             r = _culprit(co, cn)
             if r is not None:
                 return r
-            if co[0] == 'paren' and is_compound(co):
-                return paren_label(o1, slot, i, co)
-            return _paren_child_label(o1)
+            return _paren_child_label(o1, n1)
         return None
-    return _paren_child_label(o1)
+    return _paren_child_label(o1, n1)
 
 
 def necessary_parens(e) -> T.Tuple[T.List[str], T.List[str]]:
